@@ -32,13 +32,13 @@ LANGS = [l for ls in LANGSETS for l in ls]
 CELL = re.compile(r"^(\d+)(?: \(([+-]\d+)\))?$")
 
 
-def mk_report(assign, repository=None):
+def mk_report(assign, repository=None, root="/r"):
     """assign: {language: variant index}"""
     from codelimit.common.Codebase import Codebase
     from codelimit.common.LanguageTotals import LanguageTotals
     from codelimit.common.report.Report import Report
 
-    cb = Codebase("/r")
+    cb = Codebase(root)
     for lang, vi in assign.items():
         t = LanguageTotals(lang)
         t.files, t.functions, t.loc, t.hard_to_maintain, t.unmaintainable = VARIANTS[vi]
@@ -141,12 +141,14 @@ def eval_pair(cur, prev):
 
     out = []
     rep = mk_report(cur)
-    prep = mk_report(prev) if prev is not None else None
+    # the comparison report was usually written elsewhere (the base branch in another checkout, another machine)
+    prep = mk_report(prev, root="/ci/base/checkout" if len(prev) % 2 else "/r") if prev is not None else None
     want_rows, want_tot = expected_rows(cur, prev)
     parsed = {}
     for fmt, mod, parser in (("text", format_text, parse_text_table), ("markdown", format_markdown, parse_markdown_table)):
         try:
-            text = harness.render(mod.print_totals, rep, prep, console_pos=0)
+            # the whole report as the command prints it (overview table first), not only the table function
+            text = harness.render(mod.print_report, rep, prep, console_pos=0)
         except Exception as e:  # noqa
             out.append(("render-raised", {"format": fmt, "error": type(e).__name__}, repr(e)))
             continue
@@ -224,10 +226,19 @@ def eval_findings(n, pattern, nfiles, full, with_repo, fmt):
     for p, e in cb.files.items():
         for m in e.measurements():
             truth[(p, m.unit_name)] = (m.value, m.start.line, m.start.column, m.end.line)
-    if fmt == "text":
-        text = harness.render(format_text.print_findings, rep, full, console_pos=0)
-    else:
-        text = harness.render(format_markdown.print_findings, rep, full, console_pos=1)
+    # the terminal's HEIGHT is part of the environment too (rich reads LINES when a console is created): a small pane for odd n
+    saved_lines = os.environ.get("LINES")
+    os.environ["LINES"] = "9" if n % 2 else "50"
+    try:
+        if fmt == "text":
+            text = harness.render(format_text.print_findings, rep, full, console_pos=0)
+        else:
+            text = harness.render(format_markdown.print_findings, rep, full, console_pos=1)
+    finally:
+        if saved_lines is None:
+            os.environ.pop("LINES", None)
+        else:
+            os.environ["LINES"] = saved_lines
     rows = []
     more = None
     for l in text.splitlines():
